@@ -894,3 +894,91 @@ func DirFS(dir string) fs.FS          { return os.DirFS(dir) }
 func SameFile(a, b FileInfo) bool     { return os.SameFile(a, b) }
 func NewSyscallError(s string, e error) error { return os.NewSyscallError(s, e) }
 func Getpagesize() int                { return os.Getpagesize() }
+
+// ---------------------------------------------------------------- rarely used API, passed through
+// (present so that an edit of the repository that starts using them still builds)
+
+type (
+	Process      = os.Process
+	ProcAttr     = os.ProcAttr
+	ProcessState = os.ProcessState
+	SyscallError = os.SyscallError
+	LinkError    = os.LinkError
+)
+
+var (
+	Interrupt = os.Interrupt
+	Kill      = os.Kill
+)
+
+func FindProcess(pid int) (*Process, error) { return os.FindProcess(pid) }
+func StartProcess(name string, argv []string, attr *ProcAttr) (*Process, error) {
+	return os.StartProcess(name, argv, attr)
+}
+func NewFile(fd uintptr, name string) *File {
+	rf := os.NewFile(fd, name)
+	if rf == nil {
+		return nil
+	}
+	return &File{real: rf, name: name}
+}
+func Pipe() (r *File, w *File, err error) {
+	rr, ww, err := os.Pipe()
+	if err != nil {
+		return nil, nil, err
+	}
+	return &File{real: rr, name: "|0"}, &File{real: ww, name: "|1"}, nil
+}
+func Chtimes(name string, atime, mtime time.Time) error {
+	if !isSim(name) {
+		return os.Chtimes(name, atime, mtime)
+	}
+	return nil
+}
+func Chown(name string, uid, gid int) error {
+	if !isSim(name) {
+		return os.Chown(name, uid, gid)
+	}
+	return nil
+}
+func Lchown(name string, uid, gid int) error { return Chown(name, uid, gid) }
+func Link(oldname, newname string) error {
+	if !isSim(oldname) && !isSim(newname) {
+		return os.Link(oldname, newname)
+	}
+	return &os.LinkError{Op: "link", Old: oldname, New: newname, Err: syscall.ENOTSUP}
+}
+func Symlink(oldname, newname string) error {
+	if !isSim(newname) {
+		return os.Symlink(oldname, newname)
+	}
+	return &os.LinkError{Op: "symlink", Old: oldname, New: newname, Err: syscall.ENOTSUP}
+}
+func Readlink(name string) (string, error) {
+	if !isSim(name) {
+		return os.Readlink(name)
+	}
+	return "", perr("readlink", name, syscall.EINVAL)
+}
+
+func (f *File) SetDeadline(t time.Time) error      { return nil }
+func (f *File) SetReadDeadline(t time.Time) error  { return nil }
+func (f *File) SetWriteDeadline(t time.Time) error { return nil }
+func (f *File) Chown(uid, gid int) error {
+	if f.real != nil {
+		return f.real.Chown(uid, gid)
+	}
+	return nil
+}
+func (f *File) ReadFrom(r io.Reader) (int64, error) {
+	if f.real != nil {
+		return f.real.ReadFrom(r)
+	}
+	return io.Copy(struct{ io.Writer }{f}, r)
+}
+func (f *File) WriteTo(w io.Writer) (int64, error) {
+	if f.real != nil {
+		return f.real.WriteTo(w)
+	}
+	return io.Copy(w, struct{ io.Reader }{f})
+}
